@@ -59,6 +59,14 @@ func replayFsck(c *core.Ctx, lfsBin string, b *behaviour, idx int) (*core.Violat
 			w.logf("git config lfs.fetchexclude %s", strings.Join(pats, ","))
 			w.Env.Git(w.Clone, "config", "lfs.fetchexclude", strings.Join(pats, ","))
 		}
+		if in := toStrings(s["incl"]); len(in) > 0 {
+			var pats []string
+			for _, p := range in {
+				pats = append(pats, PathFile(p))
+			}
+			w.logf("git config lfs.fetchinclude %s", strings.Join(pats, ","))
+			w.Env.Git(w.Clone, "config", "lfs.fetchinclude", strings.Join(pats, ","))
+		}
 		// make sure no later git command re-cleans work-tree files (racy git): refresh the index
 		w.Env.Git(w.Clone, "update-index", "-q", "--refresh")
 		before := gitenv.ListObjects(w.GitDir())
@@ -241,6 +249,9 @@ func sampleFsck(c *core.Ctx, file string, budget int) ([]*behaviour, int, int) {
 			}
 		}
 		last := st[len(st)-1]
+		if len(toStrings(last["incl"])) > 0 {
+			feat["incl"] = true
+		}
 		if len(toStrings(last["excl"])) > 0 {
 			feat["excl"] = true
 			badSet := toSet(toStrings(last["badObjects"]))
